@@ -35,6 +35,10 @@ def cases(ctx, n):
         for part in ('always', 'initial'):
             out.append([(part, [f]), (part, [g])])
             out.append([(part, [g]), (part, [f])])
+    # one atom at several distances, in textual orders that make IntervalSet merge an interval while a later separate one exists
+    for f in [('or', ('next', 3, a), ('and', a, ('next', None, a))), ('and', ('next', 2, a), ('and', ('next', None, a), ('and', a, ('next', 4, a)))), ('or', ('next', 4, a), ('or', ('next', 2, a), ('or', a, ('next', 3, a)))),
+              ('and', ('next', 5, a), ('and', ('next', 3, a), ('and', ('next', None, a), ('next', 2, a)))), ('or', ('next', 3, a), ('or', ('until', None, ('next', 5, a)), a)), ('and', ('wnext', 2, b), ('or', ('next', 2, a), ('and', a, ('next', None, ('or', a, b)))))]:
+        out.append([('initial', [f])])
     out.append([('always', [a, ('next', None, b)])])                       # several elements: their disjunction
     out.append([('initial', [('until', a, b), na, ('wnext', 2, a)])])
     for i in range(n):
@@ -170,4 +174,65 @@ def compare(ctx, css, H):
         if rec['status'] == 'agree' and len(used) != len(calls):
             extra = [c for j, c in enumerate(calls) if j not in used][0]
             rec.update(status='differ', what='telingo translates a head formula the program does not contain: %s introduced at %d, translated at %d' % (extra['formula'], extra['ts'], extra['step']))
+    return out
+
+
+# ------------------------------------------------------------------------------------------------ the domain rule
+def parse_domain(stmts):
+    """the rules `heads :- __aux_k(__S); __false(__t).` of the rewritten program -> list of lists of (atom, lo, hi|None)"""
+    out = []
+    for st in stmts:
+        m = re.match(r'^(.*) :- __aux_\d+\(__S\); __false\(__t\)\.$', st)
+        if not m:
+            continue
+        els = []
+        for el in m.group(1).split('; '):
+            atom, _, cond = el.partition(': ')
+            am = re.match(r'^(-?[a-z_][A-Za-z0-9_]*)\(__t\)$', atom.strip())
+            lo, hi = 0, None
+            ok = am is not None
+            for c in ([x.strip() for x in cond.split(', ')] if cond else []):
+                m1, m2 = re.match(r'^(-?\d+) <= \(__t-__S\)$', c), re.match(r'^\(__t-__S\) <= (-?\d+)$', c)
+                if m1:
+                    lo = int(m1.group(1))
+                elif m2:
+                    hi = int(m2.group(1))
+                else:
+                    ok = False
+            els.append((am.group(1), lo, hi) if ok else ('?' + el, 0, None))
+        out.append(els)
+    return out
+
+
+def domain_compare(ctx, css):
+    """one head rule per case: the entries of Model/HeadDomain.entries against the conditional literals of the domain rule telingo writes
+    (as sets; the order of the elements is a matter of C14), and every element once more in a rule of its own when there are several"""
+    A = lang.Atoms(ATOMS)
+    inv = {v: k for k, v in A.ids.items()}
+    singles = [rules for rules in css if len(rules) == 1]
+    impl = ctx.impl().run([{'cmd': 'transform', 'texts': [program(rules)]} for rules in singles], timeout=20)
+    mod = ctx.model().run(['hdm %d %d %d %s' % (INI, FIN, len(rules[0][1]), ' '.join(lang.raw_tok(f, A) for f in rules[0][1])) for rules in singles], timeout=30)
+    out = []
+    for rules, a, m in zip(singles, impl, mod):
+        rec = {'program': program(rules), 'status': 'agree', 'entries': 0, 'rules': rules}
+        out.append(rec)
+        if a.get('status') != 'ok':
+            rec.update(status='implerror', what=json.dumps({k: a.get(k) for k in ('status', 'type', 'msg')}))
+            continue
+        if m is None or m.startswith('error'):
+            rec.update(status='modelerror', what=str(m))
+            continue
+        want = set()
+        for e in (m.split(' ; ') if m.strip() else []):
+            aid, lo, hi = e.split()
+            want.add((inv[int(aid)], int(lo), None if hi == 'inf' else int(hi)))
+        rec['entries'] = len(want)
+        dom = parse_domain(a['stmts'])
+        got = set(dom[0]) if dom else set()
+        if want != got or (dom and len(dom[0]) != len(got)):
+            rec.update(status='differ', what='domain rule: telingo %s, model %s' % (sorted(got, key=str), sorted(want, key=str)))
+        elif len(want) > 1 and sorted(dom[1:], key=str) != sorted([[e] for e in dom[0]], key=str):
+            rec.update(status='differ', what='the atoms of the domain rule do not each have a rule of their own: %s' % dom[1:])
+        elif len(want) <= 1 and len(dom) > 1:
+            rec.update(status='differ', what='unexpected further domain rules: %s' % dom[1:])
     return out
